@@ -311,10 +311,14 @@ def native_playback(h, tests, features, log_prefix):
             cmd = ["cargo", "kani", "playback", "-Z", "concrete-playback"]
             if feats:
                 cmd += ["--features", ",".join(feats)]
+            env = None
             if prof == "release":
-                cmd += ["--release"]
+                # `cargo kani playback` has no --release; emulate the release profile users run
+                env = {"CARGO_PROFILE_DEV_OPT_LEVEL": "3", "CARGO_PROFILE_DEV_DEBUG_ASSERTIONS": "false",
+                       "CARGO_PROFILE_DEV_OVERFLOW_CHECKS": "false", "CARGO_PROFILE_TEST_OPT_LEVEL": "3",
+                       "CARGO_PROFILE_TEST_DEBUG_ASSERTIONS": "false", "CARGO_PROFILE_TEST_OVERFLOW_CHECKS": "false"}
             cmd += ["--", "kani_concrete_playback", "--test-threads", "1"]
-            rc, out, dt, to = run_cmd(cmd, d, 900, None, log=f"{log_prefix}.playback-{prof}.log")
+            rc, out, dt, to = run_cmd(cmd, d, 900, None, env=env, log=f"{log_prefix}.playback-{prof}.log")
             for t in tests:
                 r = res.setdefault(t["name"], {})
                 m = re.search(r"test \S*" + re.escape(t["name"]) + r" \.\.\. (\w+)", out)
